@@ -479,6 +479,10 @@ template<class T, size_t Degree, size_t NbModuli> bool poly<T, Degree, NbModuli>
     t1 += ((typename std::make_signed<value_type>::type) t1 < 0) ? (2*p) : 0;
     x[0] = t0;
     x[1] = t1;
+#ifdef NTT_STRICTMOD
+    x[0] -= ((x[0] >= p) ? p : 0);
+    x[1] -= ((x[1] >= p) ? p : 0);
+#endif
     return true;
   }
   const size_t M = ops::ntt_loop<CC_SIMD, poly>::run(x, wtab, winvtab, p);
